@@ -93,7 +93,7 @@ fn run(tier: Tier, seed: u64, workers: usize) -> COut {
     // keep the enumeration affordable: at most 2 datagrams per (kind, crc, length class)
     corpus.sort_by_key(|it| it.bytes.len());
     let per_d2 = match tier {
-        Tier::Quick => 3usize,
+        Tier::Quick => 8usize,
         Tier::Thorough => 24,
     };
     let n = corpus.len();
